@@ -237,7 +237,7 @@ def check_C18(c):
     pool = qa + [gen.SC[k] for k in ('cr', 'ff', 'vt', 'bs', 'nel', 'fs', 'nbsp', 'del', 'cjk', 'cyr', 'isp', 'ps', 'bel', 'esc')] + list('xyz01/.,')
     for _ in range(_q(c, 3000, 80000)):
         jobs.append(('tr_quote', dict(s=''.join(c.rng.choice(pool) for _ in range(c.rng.randint(4, 40))))))
-    for v in [None, 0, 1, -1, 1.5, 0.0, -0.0, 1e100, 10 ** 30, True, 12]:
+    for v in [None, 0, 1, -1, 1.5, 0.0, -0.0, 1e100, 10 ** 30, True, 12, float('inf'), float('-inf'), float('nan'), 1e-7, 123456789.0 * 10 ** 8]:
         jobs.append(('tr_quote', dict(s=v)))
     aa = gen.ALPH['atom']
     for s in gen.all_strings(aa, _q(c, 4, 5), 1):
